@@ -1,0 +1,23 @@
+//go:build verif
+
+// Contracts for package handshake (internal FSM; comment-only; read by /verif/vc).
+package dtlshandshake
+
+// RFC 6347 4.2.4.1 timer law. 60 s = 60e9 ns. The interval is positive and below 2^62 ns
+// (about 146 years), so doubling cannot overflow int64.
+
+//@ func handleRetransmitTimeout
+//@ requires ptrs: retransmitInterval != nil && cfg != nil
+//@ requires range: *retransmitInterval > 0 && *retransmitInterval <= 4611686018427387903
+//@ ensures no-timer-resend: !retransmit ==> result == StateWaiting && *retransmitInterval == old(*retransmitInterval)
+//@ ensures resend: retransmit ==> result == StateSending
+//@ ensures backoff-doubles: retransmit && !cfg.DisableRetransmitBackoff ==> *retransmitInterval == min(2*old(*retransmitInterval), 60000000000)
+//@ ensures backoff-off: retransmit && cfg.DisableRetransmitBackoff ==> *retransmitInterval == min(old(*retransmitInterval), 60000000000)
+//@ ensures cap-60s: retransmit ==> *retransmitInterval <= 60000000000 && *retransmitInterval > 0
+//@ end
+
+//@ func handleWaitCancellation
+//@ requires ptrs: retransmitInterval != nil && cfg != nil
+//@ ensures reset: *retransmitInterval == cfg.InitialRetransmitInterval
+//@ ensures errored: result0 == StateErrored && result1 == err
+//@ end
